@@ -517,3 +517,7 @@ func (w *World) PredictOutputs(head coin.BlockHeader, t coin.Transaction) []ciph
 	}
 	return ids
 }
+
+// PathOf returns the database path NewNode(name, …) uses (C08 places crash
+// images there before opening a node on them).
+func (w *World) PathOf(name string) string { return filepath.Join(w.tmpRoot, name+".db") }
